@@ -285,23 +285,31 @@ def reported_point_is_constrained_image(ctx):
         a0 = ''.join(unparse(c.args[0]).split()) if c.args else ''
         ctx.check(a0 in ('%s.bestSolution' % sn, '%s.population[0]' % sn), 'PowellDirectionalSolver.Finalize#record',
                   'Finalize records the best slot (constrained by the _Step invariant)', 'Finalize records %s' % a0, fin, c)
+    from . import deselect as DS
     for key in ('DE', 'DE2'):
         cls = ctx.cls(CONCRETE_SOLVERS[key])
         f = ctx.touch(ctx.model.lookup_method(cls, '_Step'))
-        sn = selfname_of(f)
-        for st in stmts_of(f.node):
-            if not isinstance(st, (ast.Assign, ast.AugAssign)):
+        r = DS.analyse(ctx, key, f)
+        sn = r['sn']
+        by_attr = {}
+        for st in r['stores']:
+            if st.kind == 'trial':
                 continue
-            for tg in store_targets(st):
-                base = tg
-                while isinstance(base, ast.Subscript):
-                    base = base.value
-                if is_self_attr(base, None, sn) and base.attr in ('bestSolution', 'population', 'popEnergy', 'bestEnergy'):
-                    gs = guards_of(st, stop=f.node)
-                    improving = any(g[1] and isinstance(g[0], ast.Compare) and isinstance(g[0].ops[0], (ast.Lt, ast.LtE)) for g in gs)
-                    gen0 = any(g[1] and ''.join(unparse(g[0]).split()) == 'notlen(%s._stepmon)' % sn for g in gs)
-                    ctx.check(improving or gen0, '%s._Step#writes-%s' % (cls.name, base.attr), 'written only under an improvement test or at generation 0',
-                              '%s is written outside the improvement-guarded stores: %s' % (base.attr, norm_stmt(st)), f, st)
+            attr = {'member-energy': 'popEnergy', 'member-point': 'population', 'best-energy': 'bestEnergy', 'best-point': 'bestSolution'}[st.kind]
+            if st.in_loop == 0:
+                # prologue of the step: only the generation-0 initialisation may touch the reported state
+                good = st.gen0 is True
+            else:
+                il = DS.improvement_literal(st, sn, r['mode'])
+                good = il is not None and (il[0], True) in st.lits
+            by_attr.setdefault(attr, []).append((good, st))
+        for attr in ('bestSolution', 'population', 'popEnergy', 'bestEnergy'):
+            items = by_attr.get(attr, [])
+            ctx.need(items, '%s._Step: no store to %s found' % (cls.name, attr))
+            bad = [st for good, st in items if not good]
+            ctx.check(not bad, '%s._Step#writes-%s' % (cls.name, attr), 'written only where the path knows the (constrained, evaluated) trial is strictly better, or at generation 0',
+                      '%s is written outside the improvement-guarded stores: %s (path %s)' % (attr, norm_stmt(bad[0].node) if bad else '', bad[0].path.describe(6) if bad else ''),
+                      f, bad[0].node if bad else items[0][1].node)
 
 
 @rule('C03.c', min_instances=3)
